@@ -78,6 +78,15 @@ class ConnTranslator(Translator):
                                                                             "column_type": col + ".type", "character_set": col + ".character_set"}:
                 return "(coldef self.server_charset %s)" % col, BYTES
             raise Untranslatable("column definition " + ast.unparse(n)[:80])
+        if ast.unparse(f) == "make_column_definition_41":
+            kw = {k.arg: ast.unparse(k.value) for k in n.keywords}
+            row = kw.get("name", "")[:-3]
+            tb = kw.get("table", "").split(".")[0]
+            if not n.args and row in c.env and c.env[row] == BYTES and c.env.get(tb) == T_rec("ComFieldList") and kw == {
+                    "server_charset": "self.server_charset", "table": tb + ".table", "name": row + "[0]", "is_com_field_list": "True", "default": row + "[4]"}:
+                # the definition COM_FIELD_LIST sends for one row of the SHOW COLUMNS answer (name = row[0], default = row[4])
+                return "(field_coldef self.server_charset %s.table %s)" % (tb, row), BYTES
+            raise Untranslatable("column definition " + ast.unparse(n)[:80])
         if ast.unparse(f) == "packets.make_text_resultset_row" and len(n.args) == 2 and isinstance(n.args[0], ast.Name) \
                 and c.env.get(n.args[0].id) == BYTES and isinstance(n.args[1], ast.Attribute) and n.args[1].attr == "columns":
             # `ResultSet.rows` stands for the packets the rows encode to (see the nested generator of handle_stmt_execute)
@@ -218,6 +227,16 @@ class HandlerTranslator(ConnTranslator):
                 and ast.unparse(value.args[0]) == value.args[0].value.id + ".sql" and ast.unparse(value.args[1]) == value.args[0].value.id + ".query_attrs":
             c.env[tg.id] = T_rec("ResultSet")
             return self.m_bind_opt("app_query %s.sql" % value.args[0].value.id, tg.id, cont(c))
+        # result = await self.query(sql=sql, query_attrs={})
+        if isinstance(tg, ast.Name) and isinstance(value, ast.Call) and ast.unparse(value.func) == "self.query" and not value.args \
+                and {k.arg: ast.unparse(k.value) for k in value.keywords} == {"sql": "sql", "query_attrs": "{}"} and c.env.get("sql") == STR:
+            c.env[tg.id] = T_rec("ResultSet")
+            return self.m_bind_opt("app_query sql", tg.id, cont(c))
+        # sql = com_field_list_to_show_statement(com_field_list): the SHOW COLUMNS text (schema.py, C16's subject)
+        if isinstance(tg, ast.Name) and isinstance(value, ast.Call) and ast.unparse(value.func) == "com_field_list_to_show_statement" \
+                and len(value.args) == 1 and isinstance(value.args[0], ast.Name) and c.env.get(value.args[0].id) == T_rec("ComFieldList"):
+            c.env[tg.id] = STR
+            return "let %s : S := field_list_sql %s\n%s" % (tg.id, value.args[0].id, cont(c))
         # rows = gen_rows(): the nested generator that encodes the rows of the result (see block)
         if isinstance(tg, ast.Name) and isinstance(value, ast.Call) and isinstance(value.func, ast.Name) \
                 and value.func.id in getattr(c, "row_generators", {}) and not value.args:
@@ -279,6 +298,13 @@ class HandlerTranslator(ConnTranslator):
                 return "let self := { self with out := self.out ++ [Ev.drain] }\n%s" % cont(c)
             if f == "self.session.reset" and not call.args and not call.keywords:
                 return "let self := { self with out := self.out ++ [Ev.session_reset] }\n%s" % cont(c)
+            if f == "self.session.use" and len(call.args) == 1 and not call.keywords:
+                # the application's `use` callback: it is told the database; it may raise (`use_raises`)
+                binds, e, t = self.expr(call.args[0], c, STR)
+                if t != STR:
+                    raise Untranslatable("session.use of " + lean_type(t))
+                return self.wrap(binds, "let self := { self with out := self.out ++ [Ev.session_use %s] }\nif use_raises %s then\n%s\nelse\n%s" % (
+                    e, e, ind(self.m_fail()), ind(cont(c))))
             raise Untranslatable("await " + f)
         # stmt = self.prepared_stmts.get(k) ; if stmt is None: <terminating>
         if isinstance(s, ast.Assign) and len(s.targets) == 1 and isinstance(s.targets[0], ast.Name) and isinstance(s.value, ast.Call) \
@@ -683,7 +709,7 @@ def translate_handlers():
         # `client_charset` / `server_charset` are properties of Connection (the session variables behind them are C15's
         # subject); here they are read like fields
         "Connection": [("capabilities", NAT, None), ("status_flags", NAT, None), ("prepared_stmts", T_dict(NAT, T_rec("PreparedStatement")), None),
-                       ("out", ("abs", "(List Ev)"), None), ("prepared_stmt_seq", T_rec("seq"), None), ("client_charset", CS, None),
+                       ("out", ("abs", "(List (Ev S))"), None), ("prepared_stmt_seq", T_rec("seq"), None), ("client_charset", CS, None),
                        ("server_charset", CS, None), ("_executing", BOOL, None)],
         # COM_STMT_EXECUTE as the handler uses it: the statement object, the interpolated text, the cursor flag (the
         # attributes only travel to the application)
@@ -691,6 +717,7 @@ def translate_handlers():
         # a result set as the handler uses it: columns are opaque identifiers, `rows` the packets its rows encode to
         "ResultSet": [("columns", T_list(NAT), None), ("rows", GEN, None)],
         "ComQuery": dataclass_fields(P.ComQuery, {"query_attrs": T_dict(T_opt(STR), VAL)}),
+        "ComFieldList": dataclass_fields(P.ComFieldList),
         "ComStmtSendLongData": dataclass_fields(P.ComStmtSendLongData),
         "ComStmtFetch": dataclass_fields(P.ComStmtFetch),
         "ComStmtReset": dataclass_fields(P.ComStmtReset),
@@ -703,10 +730,10 @@ def translate_handlers():
     PC = "Mimic.Extracted.ParsersCode."
     out = ["-- GENERATED by harness/extract.py (harness/pytrans3.py) from /repo/mysql_mimic/connection.py — do not edit",
            "import Mimic.Py", "import Mimic.Extracted.PacketsCode", "import Mimic.Extracted.ParsersCode", "namespace Mimic.Extracted.HandlersCode",
-           "open Mimic.Py", "open Mimic.Extracted.ParsersCode (ComStmtSendLongData ComStmtFetch ComStmtReset ComStmtClose ComQuery)", "",
+           "open Mimic.Py", "open Mimic.Extracted.ParsersCode (ComStmtSendLongData ComStmtFetch ComStmtReset ComStmtClose ComQuery ComFieldList)", "",
            "variable {S : Type} [DecidableEq S]", "",
            "/-- what a handler does to the outside, in the order it does it -/",
-           "inductive Ev\n  | write (pkt : Bytes) (drain : Bool)\n  | drain\n  | session_reset\n  | reset_seq\nderiving DecidableEq, Repr\n"]
+           "inductive Ev (S : Type)\n  | write (pkt : Bytes) (drain : Bool)\n  | drain\n  | session_reset\n  | reset_seq\n  | session_use (database : S)\nderiving DecidableEq, Repr\n"]
     from mysql_mimic import utils as U
     csrc = inspect.getsource(Cn.Connection)
     for prop in ("client_charset", "server_charset"):
@@ -718,7 +745,8 @@ def translate_handlers():
     pure.flags = {"Capabilities", "ServerStatus"}
     pure.fns.update(lib_fns())
     pure.extra_params = [("count_params", "S → Nat"), ("param_coldef", "Nat → Bytes"), ("coldef", "Nat → Nat → Bytes"),
-                         ("parse_execute", "Connection S → Bytes → Option (ComStmtExecute S)"), ("app_query", "S → Option (ResultSet S)")]
+                         ("parse_execute", "Connection S → Bytes → Option (ComStmtExecute S)"), ("app_query", "S → Option (ResultSet S)"),
+                         ("use_raises", "S → Bool"), ("field_list_sql", "ComFieldList S → S"), ("field_coldef", "Nat → S → Bytes → Bytes")]
     from mysql_mimic import results as R
     if "def __bool__(self) -> bool:\n        return bool(self.columns)" not in inspect.getsource(R.ResultSet):
         raise Untranslatable("ResultSet.__bool__ is no longer bool(self.columns)")
@@ -760,9 +788,14 @@ def translate_handlers():
     fn.partial, fn.env = True, True
     pure.fns["packets.parse_com_query"] = fn
     pure.fns["packets.make_column_count"] = py_sig(P, "make_column_count", PC + "make_column_count")
+    for nm in ("parse_com_init_db", "parse_com_field_list"):
+        fn = py_sig(P, nm, PC + nm)
+        fn.partial, fn.env = True, True
+        pure.fns[nm] = fn
     out.append(pure.generator_as_list("Connection.com_stmt_prepare_response", "com_stmt_prepare_response", conn))
     for nm, ln in (("handle_stmt_prepare", "handle_stmt_prepare"), ("handle_stmt_execute", "handle_stmt_execute"), ("handle_query", "handle_query"), ("handle_ping", "handle_ping"),
-                   ("handle_reset_connection", "handle_reset_connection"), ("handle_debug", "handle_debug"), ("handle_stmt_fetch", "handle_stmt_fetch"), ("handle_stmt_reset", "handle_stmt_reset"), ("handle_stmt_close", "handle_stmt_close"),
+                   ("handle_reset_connection", "handle_reset_connection"), ("handle_debug", "handle_debug"), ("handle_init_db", "handle_init_db"),
+                   ("handle_field_list", "handle_field_list"), ("handle_stmt_fetch", "handle_stmt_fetch"), ("handle_stmt_reset", "handle_stmt_reset"), ("handle_stmt_close", "handle_stmt_close"),
                    ("handle_stmt_send_long_data", "handle_stmt_send_long_data")):
         out.append(h.handler("Connection." + nm, ln))
     # the command loop's iteration over the translated handlers
@@ -781,7 +814,8 @@ def translate_handlers():
     out.append("def translated : List String := [%s]" % ", ".join('"%s"' % n for n in (
         "Connection.ok", "Connection.eof", "Connection.deprecate_eof", "Connection.ok_or_eof", "Connection.get_stmt",
         "Connection.com_stmt_prepare_response", "Connection.handle_stmt_prepare", "Connection.handle_stmt_execute", "Connection.handle_query", "Connection.text_resultset", "Connection.handle_ping",
-        "Connection.handle_reset_connection", "Connection.handle_debug", "Connection.handle_stmt_fetch", "Connection.handle_stmt_reset", "Connection.handle_stmt_close", "Connection.handle_stmt_send_long_data", "Connection.command_phase (one iteration)")))
+        "Connection.handle_reset_connection", "Connection.handle_debug", "Connection.handle_init_db", "Connection.handle_field_list",
+        "Connection.handle_stmt_fetch", "Connection.handle_stmt_reset", "Connection.handle_stmt_close", "Connection.handle_stmt_send_long_data", "Connection.command_phase (one iteration)")))
     out.append("end Mimic.Extracted.HandlersCode")
     return "\n".join(out) + "\n"
 
